@@ -146,7 +146,7 @@ def object_serialization(
     generic, bases = cls, ()
     if getattr(cls, "__parameters__", ()):
         generic = cls[cls.__parameters__]  # type: ignore
-        bases = Generic[cls.__parameters__]  # type: ignore
+        bases = (Generic[cls.__parameters__],)  # type: ignore
     elif (
         callable(fields_and_methods)
         and fields_and_methods.__name__ != "<lambda>"
